@@ -385,7 +385,9 @@ fn run_history(cx: &mut Ctx, rng: &mut Rng, ck: CK, steps: usize) -> Result<(), 
         }
         let m = &msgs[rng.below(msgs.len() as u64) as usize];
         let roles = w.roles.clone();
-        let (role, sender) = roles[rng.below(roles.len() as u64) as usize].clone();
+        // the principals of the fresh state come last in the role list: favour them
+        let pick = if rng.chance(3, 5) { roles.len() - 1 - rng.below(4.min(roles.len() as u64)) as usize } else { rng.below(roles.len() as u64) as usize };
+        let (role, sender) = roles[pick].clone();
         let pre = w.snapshot();
         let env = w.env_coq();
         let funds = if m.funds > 0 { vec![coin(m.funds, NATIVE)] } else { vec![] };
